@@ -313,6 +313,8 @@ def run(pid, tier):
             twins[n] = facts["extra"]
         for n in names:
             facts = json.load(open(os.path.join(OUT, n + ".json")))
+            if facts["extra"].get("pending_twin"):
+                continue
             ast = dump(os.path.join(OUT, n + ".rs"))
             if "parse_error" in ast:
                 v.inconc("generated module %s does not parse: %s" % (n, ast["parse_error"][:200]))
@@ -422,7 +424,7 @@ def run(pid, tier):
         # converse ("it can whenever all of them can"): for every module and every variant whose field types
         # are all known to be Send + Sync, rustc must accept is_send / is_sync of the record type
         GOOD = {"u8", "u16", "u32", "u64", "[u8;3]", "kgen_types::P12", "kgen_types::P24", "kgen_types::Zst", "kgen_types::Over16", "kgen_types::Tracked",
-                "kgen_types::TrackedBox", "kgen_types::ZstDrop", "[u64;0]", "Option<u32>", "std::sync::Mutex<std::cell::Cell<u32>>", "fn(*constu8,usize)->usize"}
+                "kgen_types::TrackedBox", "kgen_types::ZstDrop", "[u64;0]", "Option<u32>", "Box<str>", "std::sync::Mutex<std::cell::Cell<u32>>", "fn(*constu8,usize)->usize"}
         probed = 0
         for n in names:
             facts = json.load(open(os.path.join(OUT, n + ".json")))
